@@ -481,7 +481,9 @@ func stringContainsCTLByte(s []byte) bool {
 func splitHostURI(host, uri []byte) ([]byte, []byte, []byte) {
 	scheme, path := getScheme(uri)
 
-	if scheme == nil {
+	// only "scheme://..." is an absolute URI; anything else that merely
+	// contains a colon (e.g. "a:b") is handled as a relative reference
+	if scheme == nil || !bytes.HasPrefix(path, bytestr.StrSlashSlash) {
 		return bytestr.StrHTTP, host, uri
 	}
 
